@@ -141,6 +141,18 @@ def c09(tier):
             if not cfg.feats:
                 continue
             subs.append(Subj("k%d_%05d" % (i, j), d, cfg, bounds=bounds, sweep_full=False))
+    # `sorted(..)` is a configuration too: co-enabled with the string / iterator features in every mode on declarations it accepts
+    from props_e3 import sorted_name_subjects, sorted_subjects
+    k = 0
+    for ms in ({}, {"as_str": "table", "from_str": "table", "FromStr": "table", "iter": "table"},
+               {"as_str": "match", "from_str": "match", "FromStr": "match", "iter": "next_and_back"}):
+        for extra in ([], ["names"]):
+            feats = [("as_str", {"mode": ms["as_str"]} if ms else {}), ("from_str", {"mode": ms["from_str"]} if ms else {}),
+                     ("FromStr", {"mode": ms["FromStr"]} if ms else {}), ("iter", {"mode": ms["iter"]} if ms else {}), "next", "try_from"] + extra
+            for sj in sorted_name_subjects(feats, "n%d" % k, bounds=bounds, sweep_full=False) + sorted_subjects(feats, "v%d" % k, bounds=bounds, sweep_full=False):
+                sj.sid = sj.sid[:2] + "x" + sj.sid[2:] + "_" + str(k)       # group = declaration (the numeric part), see compare below
+                subs.append(sj)
+            k += 1
     merged = explore(res, "%s/c09" % tier, subs)
     # pairwise equality between configurations, independent of the reference model
     by = {s.sid: s for s in subs}
